@@ -57,7 +57,7 @@ Agg(f, e, rows) ==
        [] f = "count"  -> I(Len(nn))
        [] f = "sum"    -> IF nn = <<>> THEN NullV ELSE F2(SumV(nn))                         \* SUM yields DOUBLE
        [] f = "avg"    -> IF nn = <<>> THEN NullV
-                          ELSE IF SumV(nn) % Len(nn) = 0 THEN F2(TDiv(SumV(nn), Len(nn))) ELSE [t |-> "x", v |-> "avg"]
+                          ELSE IF SumV(nn) % Len(nn) = 0 THEN F2(TDiv(SumV(nn), Len(nn))) ELSE [t |-> "x", v |-> "avg", fl |-> SumV(nn) \div Len(nn)]
        [] f = "min"    -> IF nn = <<>> THEN NullV ELSE MinV(Tail(nn), Head(nn))
        [] f = "max"    -> IF nn = <<>> THEN NullV ELSE MaxV(Tail(nn), Head(nn))
 
